@@ -9,7 +9,7 @@ git checkout -q --detach $(git -C /repo rev-parse HEAD); git reset -q --hard HEA
 if [ "$id" != none ]; then
 p=/verif/seeded/$id/patch.diff; [ -f $p ] || p=/verif/seeded/$id/patch.orig.diff; [ -f $p ] || p=/verif/seeded/$id.diff
 id=$(echo $id | tr / _)
-if ! git apply -3 $p 2>/tmp/apply_$id.err; then echo "PATCH DOES NOT APPLY: $id"; cat /tmp/apply_$id.err; git reset -q --hard HEAD; exit 8; fi
+if ! git apply $p 2>/tmp/apply_$id.err && ! { git reset -q --hard HEAD; git apply -3 $p 2>>/tmp/apply_$id.err; }; then echo "PATCH DOES NOT APPLY: $id"; cat /tmp/apply_$id.err; git reset -q --hard HEAD; exit 8; fi
 fi
 cd /verif; VERIF_REPO=$W VERIF_BUILD=$B ./check $prop --tier quick --no-evidence "$@" > /tmp/dev_${id}_$prop.log 2>&1; rc=$?
 cd $W; git reset -q --hard HEAD
